@@ -21,41 +21,17 @@ def predicateSaysNo (m : M) (v : V) : Bool :=
   | .leaf (.predicate _ .one dom res) => lookupTbl v dom res == .mismatch
   | _ => false
 
-/- constructor arguments inside their documented domain: the message of every `MatchesPredicate` has
-exactly one conversion ("it needs to contain exactly one thing like '%s', '%d' or '%f'") -/
-mutual
-def wf : M → Bool
-  | .leaf (.predicate _ msg _ _) => msg == .one
-  | .leaf _ => true
-  | .excTypeV _ vm => wf vm
-  | .raises em => wf em
-  | .not m => wf m
-  | .all _ ms => wfL ms
-  | .any ms => wfL ms
-  | .allMatch m => wf m
-  | .anyMatch m => wf m
-  | .listwise _ ms => wfL ms
-  | .setwise _ _ ms => wfL ms
-  | .structure _ ms => wfL ms
-  | .dict _ _ ms => wfL ms
-  | .annotate m => wf m
-  | .after _ _ m => wf m
-def wfL : List M → Bool
-  | [] => true
-  | m :: ms => wf m && wfL ms
-end
-
-/-! clauses for `describe` inputs (about well-formed expressions) -/
+/-! clauses for `describe` inputs -/
 def cStrTotal : Input → Trace → Bool
   | .describe .., .describe str _ _ _ _ => str.isNone
   | .describe .., _ => false
   | _, _ => true
 def cDescribeTotal : Input → Trace → Bool
-  | .describe m .., .describe _ matched d details _ => !wf m || matched != .mismatch || (d.isNone && details.isNone)
+  | .describe .., .describe _ matched d details _ => matched != .mismatch || (d.isNone && details.isNone)
   | .describe .., _ => false
   | _, _ => true
 def cErrorStrTotal : Input → Trace → Bool
-  | .describe m .., .describe _ matched _ _ e => !wf m || matched != .mismatch || e.isNone
+  | .describe .., .describe _ matched _ _ e => matched != .mismatch || e.isNone
   | .describe .., _ => false
   | _, _ => true
 /-- when the documented verdict is "mismatch", `match()` returns a Mismatch (it does not raise while
@@ -116,18 +92,5 @@ def clauses : List (String × (Input → Trace → Bool)) :=
    ("raises-iff", cRaisesIff), ("fails-afterwards", cFailsAfterwards), ("details-non-clobbering", cNonClobbering)]
 
 def holds (i : Input) (t : Trace) : Bool := clauses.all fun c => c.2 i t
-
-/-- finding class: a well-formed `MatchesPredicate` given a tuple matchee (`message % tuple`) -/
-def predicateTupleMatchee : Input → Bool
-  | .describe m v annotated _ =>
-    (match stripAnnot (withMessage annotated m) with
-     | .leaf (.predicate _ .one _ _) => true
-     | _ => false) &&
-    (match v with
-     | .exc _ true => true
-     | _ => false)
-  | _ => false
-
-def classes (i : Input) : List String := if predicateTupleMatchee i then ["predicateTupleMatchee"] else []
 
 end TTV.Spec.C07
